@@ -20,6 +20,10 @@ package fstree
 //@   ghost var rm *record.Meta = nil
 //@   at after (*Meta).CheckPermission ghost rm = r.meta
 //@   at send Next assert ok && l0 == local && i0 == internal && m0 == rm
+// C18: the walk callback only reads files that lie inside the base path
+// (filepath.Walk hands out clean paths: assumed)
+//@   assume isClean(path)
+//@   at call os.ReadFile assert arg0 == path && inside(fst.basePath, arg0)
 
 // C17: a record file is published by exactly one rename of a synced, closed temporary file
 //@ func writeFile
@@ -31,3 +35,42 @@ package fstree
 //@   ensures r0 == nil && !isTemp(filename) ==> fsPublishes == old(fsPublishes) + 1 && fsPubDst == filename && isTemp(fsPubSrc)
 //@   ensures r0 != nil || isTemp(filename) ==> fsPublishes == old(fsPublishes)
 //@   ensures r0 != nil && tf != nil ==> fsRemoved == nameOf(tf.File) && isTemp(fsRemoved)
+
+// ---- C18: a database key never reaches a file outside the database's base path
+
+// a path is only handed out if it lies lexically inside the base path (and is clean)
+//@ func (*FSTree).buildFilePath
+//@   requires fst != nil
+//@   ensures r1 == nil ==> inside(fst.basePath, r0)
+//@   ensures r1 != nil ==> r0 == ""
+
+//@ func (*FSTree).Get
+//@   requires fst != nil
+//@   nopanic off
+//@   modifies *
+//@   ghost var p string = ""
+//@   ghost var ok bool = false
+//@   at after (*FSTree).buildFilePath ghost p = ret0
+//@   at after (*FSTree).buildFilePath ghost ok = (ret1 == nil)
+//@   at call os.ReadFile assert ok && arg0 == p
+
+//@ func (*FSTree).Delete
+//@   requires fst != nil
+//@   nopanic off
+//@   modifies *
+//@   ghost var p string = ""
+//@   ghost var ok bool = false
+//@   at after (*FSTree).buildFilePath ghost p = ret0
+//@   at after (*FSTree).buildFilePath ghost ok = (ret1 == nil)
+//@   at call os.Remove assert ok && arg0 == p
+
+//@ func (*FSTree).Put
+//@   requires fst != nil
+//@   nopanic off
+//@   modifies *
+//@   ghost var p string = ""
+//@   ghost var ok bool = false
+//@   at after (*FSTree).buildFilePath ghost p = ret0
+//@   at after (*FSTree).buildFilePath ghost ok = (ret1 == nil)
+//@   at call writeFile assert ok && arg0 == p
+//@   at call os.MkdirAll assert ok && arg0 == dirOf(p)
